@@ -27,7 +27,10 @@ MIN = {'quick': {'distinct': 1500,
                  'strata': {'negra: several HD': 100, 'negra: NK only': 100,
                             'negra: neither': 100,
                             'rule: listed child not leftmost': 1000,
-                            'invalid configuration rejected': 20}},
+                            'invalid configuration rejected': 20,
+                            'negra: tree already carries head marks': 300,
+                            'negra after rule-based marking': 100,
+                            'rules: tree already carries head marks': 500}},
        'thorough': {'distinct': 60000,
                     'hooks': {'transform.mark_heads_by_rules': 100000}}}
 
@@ -177,12 +180,30 @@ def install(R):
 
 # ---- workloads -------------------------------------------------------------------
 
-def run_negra(ctx, spec, rng):
+def stale_marks(rng, live):
+    """Head flags left over from an earlier marking (any values)."""
+    mode = rng.choice(['random', 'all', 'none'])
+    stack = [live]
+    while stack:
+        n = stack.pop()
+        n.data['head'] = {'random': rng.random() < 0.5, 'all': True,
+                          'none': False}[mode]
+        stack.extend(n.children)
+
+
+def run_negra(ctx, spec, rng, stale=False, twice=None):
     Cur.ctx = ctx
-    Cur.case = {'kind': 'negra', 'spec': spec}
+    Cur.case = {'kind': 'negra', 'spec': spec, 'stale': stale, 'twice': twice}
     live = common.live_tree(ctx, spec, rng)
+    if stale:
+        stale_marks(rng, live)
+        ctx.stratum('negra: tree already carries head marks')
     try:
         with common.captured():
+            if twice:
+                ctx.R.transform.mark_heads_by_rules(live,
+                                                    mark_heads_preset=twice)
+                ctx.stratum('negra after rule-based marking')
             ctx.R.transform.negra_mark_heads(live)
     except Exception:
         pass
@@ -262,7 +283,7 @@ def strip_private(node):
     return out
 
 
-def run_rules(ctx, spec_priv, preset, rng, params=None):
+def run_rules(ctx, spec_priv, preset, rng, params=None, stale=False):
     R = ctx.R
     Cur.ctx = ctx
     spec = {'sid': spec_priv['sid'], 'root': strip_private(spec_priv['root'])}
@@ -291,8 +312,13 @@ def run_rules(ctx, spec_priv, preset, rng, params=None):
         shuf(live)
     Cur.expect_rule_heads = expect
     kw = params if params is not None else {'mark_heads_preset': preset}
+    if stale and rng is not None:
+        stale_marks(rng, live)
+        ctx.stratum('rules: tree already carries head marks')
     try:
         with common.captured():
+            if stale and rng is not None and rng.random() < 0.5:
+                R.transform.negra_mark_heads(live)
             R.transform.mark_heads_by_rules(live, **kw)
     except Exception:
         pass
@@ -313,12 +339,15 @@ def shard(ctx):
                         max_arity=rng.choice([2, 4, 7]),
                         p_unary=rng.choice([0, 0.2]),
                         moves=rng.choice([0, 0, 2, 5]))
-        run_negra(ctx, spec, rng)
+        r = rng.random()
+        run_negra(ctx, spec, rng, stale=r < 0.3,
+                  twice=rng.choice(['negra', 'ptb']) if 0.3 <= r < 0.45
+                  else None)
     for i in ctx.indices(ctx.pick(6000, 150000)):
         rng = ctx.rng('rules', i)
         preset = rng.choice(['negra', 'ptb'])
         spec = make_rule_case(rng, tabs, preset)
-        run_rules(ctx, spec, preset, rng)
+        run_rules(ctx, spec, preset, rng, stale=rng.random() < 0.3)
         if i < 2:
             ctx.sample({'preset': preset,
                         'tree': model.show(model.from_spec(
@@ -336,7 +365,8 @@ def shard(ctx):
 def replay(ctx, case):
     install(ctx.R)
     if case['kind'] == 'negra':
-        run_negra(ctx, case['spec'], ctx.rng('replay'))
+        run_negra(ctx, case['spec'], ctx.rng('replay'),
+                  stale=case.get('stale', False), twice=case.get('twice'))
     else:
         run_rules(ctx, case['spec'], case['preset'], ctx.rng('replay'),
                   params=case.get('params'))
